@@ -104,8 +104,9 @@ def df_rows(df, hier, nm, named):
                 if l != hier[-1]:
                     alias = -7
                 elif named:
-                    mm = re.fullmatch(rf'a?{l}(\d+)', al)
-                    alias = 2000 + int(mm.group(1)) if mm else -7
+                    mm = re.fullmatch(rf'a{l}(\d+)', al)
+                    m0 = re.fullmatch(r'\d+', al)             # numeric aliases are counted from 0
+                    alias = 2000 + int(mm.group(1)) if mm else 2001 + int(al) if m0 else -7
                 else:
                     alias = inv(al)
             ru = []
